@@ -628,7 +628,10 @@ class HtmlTreeView(HtmlView):
             Html.element(
                 'div',
                 [
-                    title or make_title(value),
+                    # A str title is text (e.g. `<lambda>(...)`), not markup.
+                    title if isinstance(title, Html) else Html.escape(
+                        title or make_title(value)
+                    ),
                 ],
                 css_classes=['summary-title', css_classes],
             ),
